@@ -31,6 +31,19 @@ const NHANDLES: usize = 3;
 const BADFD: i32 = 999_999;
 const ECANCELED: i64 = -125;
 
+fn mono_ns() -> u64 {
+    let mut t = libc::timespec { tv_sec: 0, tv_nsec: 0 };
+    unsafe { libc::clock_gettime(libc::CLOCK_MONOTONIC, &mut t) };
+    t.tv_sec as u64 * 1_000_000_000 + t.tv_nsec as u64
+}
+/// how long a timeout variant must at least take (ms)
+fn timeout_floor_ms(abs: u64) -> u64 {
+    match abs {
+        2 | 3 => 40,
+        1 => 0,
+        _ => 1,
+    }
+}
 fn errno() -> i64 {
     i64::from(unsafe { *libc::__errno_location() })
 }
@@ -181,6 +194,8 @@ struct Keep {
     iov: Vec<Box<[libc::iovec; 2]>>,
     stx: Vec<Box<libc::statx>>,
     ts: Vec<Box<TimeSpec>>,
+    /// user_data -> earliest admissible completion time (CLOCK_MONOTONIC ns) of a timeout entry
+    deadline: std::collections::HashMap<u64, u64>,
 }
 
 fn upath(keep: &mut Keep, s: &str) -> &'static UnixStr {
@@ -292,14 +307,26 @@ fn build(op: &Value, w: &World, u: u64, link: bool, keep: &mut Keep) -> Built {
                 IoUringSubmissionQueueEntry::new_socket(dom, SocketOptions::new(ty, SocketFlags::SOCK_CLOEXEC), g("proto") as u32, u, fl)
             }
             "timeout" => {
-                if g("abs") == 1 {
-                    // absolute: 10 s after boot on CLOCK_MONOTONIC, long past -> fires at once; taken as relative it fires after 10 s
-                    keep.ts.push(Box::new(TimeSpec::new(10, 0)));
-                    IoUringSubmissionQueueEntry::new_timeout(keep.ts.last().unwrap(), false, None, u, fl)
-                } else {
-                    keep.ts.push(Box::new(TimeSpec::new(0, 1_000_000)));
-                    IoUringSubmissionQueueEntry::new_timeout(keep.ts.last().unwrap(), true, None, u, fl)
-                }
+                // abs 0: relative 1 ms; 1: absolute, 10 s after boot (long past on CLOCK_MONOTONIC); 2: absolute, 40 ms from
+                // now on CLOCK_MONOTONIC; 3: relative 40 ms.  cnt: completion count (fires early once that many other
+                // completions were posted)
+                let cnt = if g("cnt") > 0 { Some(g("cnt")) } else { None };
+                let (ts, relative) = match g("abs") {
+                    1 => (TimeSpec::new(10, 0), false),
+                    2 => {
+                        let d = mono_ns() + 40_000_000;
+                        (TimeSpec::new((d / 1_000_000_000) as i64, (d % 1_000_000_000) as i64), false)
+                    }
+                    3 => (TimeSpec::new(0, 40_000_000), true),
+                    _ => (TimeSpec::new(0, 1_000_000), true),
+                };
+                keep.deadline.insert(u, match g("abs") {
+                    1 => 0,
+                    2 => ts.seconds() as u64 * 1_000_000_000 + ts.nanoseconds() as u64,
+                    a => mono_ns() + timeout_floor_ms(a) * 1_000_000,
+                });
+                keep.ts.push(Box::new(ts));
+                IoUringSubmissionQueueEntry::new_timeout(keep.ts.last().unwrap(), relative, cnt, u, fl)
             }
             "poll" => {
                 let ev = if g("ev") == 0 { PollEvents::POLLIN } else { PollEvents::POLLOUT };
@@ -395,15 +422,24 @@ fn direct(op: &Value, w: &World) -> (i64, Value) {
             }
             "timeout" => {
                 let t0 = std::time::Instant::now();
-                let r = if g("abs") == 1 {
-                    let ts = libc::timespec { tv_sec: 10, tv_nsec: 0 };
-                    let e = libc::clock_nanosleep(libc::CLOCK_MONOTONIC, libc::TIMER_ABSTIME, &ts, std::ptr::null_mut());
-                    if e == 0 { 0 } else { -i64::from(e) }
-                } else {
-                    let ts = libc::timespec { tv_sec: 0, tv_nsec: 1_000_000 };
-                    ret(i64::from(libc::nanosleep(&ts, std::ptr::null_mut())))
+                if g("cnt") > 0 && op["follower"].as_bool().unwrap_or(false) {
+                    // another completion of the batch is posted behind it: the count is reached, the timer never fires
+                    return (0, json!({"fast": true, "not_early": Value::Null, "count_reached": true}));
+                }
+                let (r, deadline) = match g("abs") {
+                    1 | 2 => {
+                        let d = if g("abs") == 1 { 10_000_000_000 } else { mono_ns() + 40_000_000 };
+                        let ts = libc::timespec { tv_sec: (d / 1_000_000_000) as i64, tv_nsec: (d % 1_000_000_000) as i64 };
+                        let e = libc::clock_nanosleep(libc::CLOCK_MONOTONIC, libc::TIMER_ABSTIME, &ts, std::ptr::null_mut());
+                        (if e == 0 { 0 } else { -i64::from(e) }, if g("abs") == 1 { 0 } else { d })
+                    }
+                    a => {
+                        let d = mono_ns() + timeout_floor_ms(a) * 1_000_000;
+                        let ts = libc::timespec { tv_sec: 0, tv_nsec: (timeout_floor_ms(a) * 1_000_000) as i64 };
+                        (ret(i64::from(libc::nanosleep(&ts, std::ptr::null_mut()))), d)
+                    }
                 };
-                (r, json!({"fast": t0.elapsed().as_millis() < 2000}))
+                (r, json!({"fast": t0.elapsed().as_millis() < 2000, "not_early": mono_ns() >= deadline}))
             }
             "poll" => {
                 let mut p = libc::pollfd { fd: w.fd(g("h") as usize), events: if g("ev") == 0 { libc::POLLIN } else { libc::POLLOUT }, revents: 0 };
@@ -450,6 +486,7 @@ fn run(batches: &str, root: &str, entries: u32, flagbits: u32, out: &mut Out) {
             return;
         }
     };
+    out.ev(&geometry(&ring, entries, flagbits));
     // two registered buffers (IORING_REGISTER_BUFFERS through the wrapper)
     let mut rb0 = vec![0u8; 64];
     let mut rb1 = vec![0u8; 64];
@@ -475,6 +512,14 @@ fn run(batches: &str, root: &str, entries: u32, flagbits: u32, out: &mut Out) {
         }
         let ops = bt["ops"].as_array().unwrap();
         let n = ops.len();
+        if sqpoll {
+            // the polling thread posts completions before it publishes the consumed head: wait until the submission ring
+            // is drained (flush returns the number of unconsumed entries) so that "slot refused" means what it says
+            let t0 = std::time::Instant::now();
+            while guarded(|| ring.flush_submission_queue()).unwrap_or(0) != 0 && t0.elapsed().as_millis() < 1000 {
+                std::thread::yield_now();
+            }
+        }
         let mut keep = Keep::default();
         let mut subs = Vec::new();
         let mut built = Vec::new();
@@ -516,6 +561,8 @@ fn run(batches: &str, root: &str, entries: u32, flagbits: u32, out: &mut Out) {
         };
         let mut enter_ret: i64 = 0;
         if sqpoll {
+            // the tail store and the flag load must not be reordered (a full barrier, as liburing has it)
+            std::sync::atomic::fence(std::sync::atomic::Ordering::SeqCst);
             if ring.needs_wakeup() {
                 enter_ret = io_uring_enter(ring.fd, 0, 0, IoUringEnterFlags::IORING_ENTER_SQ_WAKEUP).map_or(-1, |v| v as i64);
             }
@@ -530,6 +577,7 @@ fn run(batches: &str, root: &str, entries: u32, flagbits: u32, out: &mut Out) {
         let mut cqes = Vec::new();
         let submitted_at = std::time::Instant::now();
         let mut arrival: std::collections::HashMap<u64, u128> = std::collections::HashMap::new();
+        let mut arrival_ns: std::collections::HashMap<u64, u64> = std::collections::HashMap::new();
         // completions of operations the kernel hands to its worker threads can take long on a loaded machine;
         // a ring that lost completions several batches in a row is not waited for any more
         let deadline = std::time::Instant::now() + std::time::Duration::from_millis(if lost_in_a_row >= 2 { 30 } else { 2500 });
@@ -540,6 +588,7 @@ fn run(batches: &str, root: &str, entries: u32, flagbits: u32, out: &mut Out) {
                 match r {
                     Ok(Some((u, res, fl))) => {
                         arrival.entry(u).or_insert(submitted_at.elapsed().as_millis());
+                        arrival_ns.entry(u).or_insert(mono_ns());
                         cqes.push(json!({"u":u,"res":res,"flags":fl}));
                         if cqes.len() > 4 * n + 16 {
                             break; // a ring that keeps returning completions: enough to be judged
@@ -559,6 +608,9 @@ fn run(batches: &str, root: &str, entries: u32, flagbits: u32, out: &mut Out) {
                 extra_round = true;
             } else {
                 std::thread::sleep(std::time::Duration::from_micros(100));
+            }
+            if sqpoll && ring.needs_wakeup() {
+                let _ = io_uring_enter(ring.fd, 0, 0, IoUringEnterFlags::IORING_ENTER_SQ_WAKEUP);
             }
             let _ = io_uring_enter(ring.fd, 0, 0, IoUringEnterFlags::IORING_ENTER_GETEVENTS);
         }
@@ -581,7 +633,15 @@ fn run(batches: &str, root: &str, entries: u32, flagbits: u32, out: &mut Out) {
                 "statx" if res == 0 => stx_json(&keep.stx[built[k].stx_ix.unwrap()]),
                 "socket" if res >= 0 => sock_facts(res as i32),
                 "openat" if res >= 0 => fd_facts(res as i32),
-                "timeout" if res != ECANCELED && res != i64::MIN => json!({"fast": arrival.get(&subs[k]["u"].as_u64().unwrap_or(0)).map_or(false, |ms| *ms < 2000)}),
+                "timeout" if res != ECANCELED && res != i64::MIN => {
+                    let u = subs[k]["u"].as_u64().unwrap_or(0);
+                    let fast = arrival.get(&u).map_or(false, |ms| *ms < 2000);
+                    if res == 0 {
+                        json!({"fast": fast, "not_early": Value::Null}) // completion count reached: no lower bound
+                    } else {
+                        json!({"fast": fast, "not_early": arrival_ns.get(&u).copied().unwrap_or(0) >= keep.deadline.get(&u).copied().unwrap_or(0)})
+                    }
+                }
                 _ => Value::Null,
             };
             payload_a.push(p);
@@ -606,10 +666,16 @@ fn run(batches: &str, root: &str, entries: u32, flagbits: u32, out: &mut Out) {
                 res_b.push(ECANCELED);
                 continue;
             }
-            let (r, p) = direct(op, &b);
+            let mut opx = op.clone();
+            opx["follower"] = json!(k + 1 < n);
+            let (r, mut p) = direct(&opx, &b);
             res_b.push(r);
             let kind = op["op"].as_str().unwrap();
             let mut d = json!({"u":subs[k]["u"],"res":r,"ran":true});
+            if p["count_reached"] == true {
+                d["count_reached"] = json!(true);
+                p = json!({"fast": true, "not_early": Value::Null});
+            }
             if kind == "poll" {
                 d["revents"] = p["revents"].clone();
                 payload_b.push(Value::Null);
@@ -984,6 +1050,21 @@ fn run_sock(scripts: &str, root: &str, entries: u32, flagbits: u32, out: &mut Ou
     drop(ring);
 }
 
+/// set-up geometry: what the wrapper extracted vs what the kernel reports for an identical, independent
+/// io_uring_setup call (raw syscall, own params block) and what follows from the requested size
+fn geometry(ring: &IoUring, requested: u32, flagbits: u32) -> Value {
+    let (se, sm, ce, cm) = ring.verif_ring_geometry();
+    let mut p = [0u32; 30]; // struct io_uring_params, 120 bytes: sq_entries, cq_entries, flags, sq_thread_cpu, sq_thread_idle, features, ...
+    p[2] = flagbits;
+    p[4] = 100;
+    let fd = unsafe { libc::syscall(libc::SYS_io_uring_setup, requested, p.as_mut_ptr()) };
+    if fd >= 0 {
+        unsafe { libc::close(fd as i32) };
+    }
+    json!({"ev":"geometry","requested":requested,"flags":flagbits,"twin_ok":fd >= 0,
+        "w_sq_entries":se,"w_sq_mask":sm,"w_cq_entries":ce,"w_cq_mask":cm,"k_sq_entries":p[0],"k_cq_entries":p[1]})
+}
+
 fn mark(s: &str) {
     unsafe { libc::write(-1, s.as_ptr().cast(), s.len()) };
 }
@@ -1041,6 +1122,9 @@ fn main() {
             match r {
                 Err(e) => out.ev(&json!({"ev":"setup_failed","err":format!("{e}")})),
                 Ok(mut ring) => {
+                    mark("MARK:geom:begin"); // the twin set-up call in here is not the ring's business
+                    out.ev(&geometry(&ring, entries, flags));
+                    mark("MARK:geom:end");
                     let fd = ring.fd.value();
                     if with_op {
                         let e = IoUringSubmissionQueueEntry::new_close(Fd::try_new(BADFD).unwrap(), 1, IoUringSQEFlags::empty());
